@@ -375,6 +375,36 @@ func genC09(r *RNG, tier string) []Case {
 			return "ok:" + showImplRows(rows) + " id=ok:" + fmt.Sprint(ev.TableID(f))
 		}, "id"))
 	}
+	// large values: the places where a length prefix crosses a byte boundary (the length rule and the decoder must
+	// still agree, and a rows event holding such a value must still split exactly)
+	for _, w := range []int{2, 3, 4} {
+		for _, l := range []int{255, 256, 65535, 65536, 70000} {
+			if w == 2 && l > 65535 {
+				continue
+			}
+			for _, t := range []int{252, 250, 255} {
+				cs = append(cs, cellCase(cellSpec{t: t, md: w, v: "s:" + hx(r.Bytes(l)), rest: r.Bytes(2)}, fmt.Sprintf("cell-large-lenbytes%d", w), true))
+			}
+		}
+	}
+	for _, l := range []int{255, 256, 65535} {
+		cs = append(cs, cellCase(cellSpec{t: 15, md: 65535, v: "s:" + hx(r.Bytes(l)), rest: r.Bytes(2)}, "cell-large-varchar", true))
+	}
+	for i, l := range []int{65536, 70000, 65535} {
+		// a write event whose second column is a MEDIUMBLOB / LONGBLOB value around 64 KiB, two rows
+		w := 3 + i%2
+		cols := []hCol{{typ: 3, md: 0}, {typ: 252, md: w}, {typ: 1, md: 0}}
+		row := func(n int) string { return "i:4:7_s:" + hx(r.Bytes(n)) + "_i:1:-3" }
+		args := fmt.Sprintf("kind=rowsev k=w v2=1 idw4=0 id=9 rflags=0 extra= cols=%s pb=111 pa=111 rows=^%s~^%s%s", colsTok(cols), row(l), row(300), metaTok(r))
+		tm := &replication.TableMap{Types: []byte{3, 252, 1}, Metadata: []uint16{0, uint16(w), 0}}
+		cs = append(cs, evCase(args, "rows-large-blob", true, 0, defaultHeaderSizes(false), func(ev replication.BinlogEvent, f replication.BinlogFormat) string {
+			rows, err := ev.Rows(f, tm)
+			if err != nil {
+				return "err"
+			}
+			return "ok:" + showImplRows(rows) + " id=ok:" + fmt.Sprint(ev.TableID(f))
+		}, "id"))
+	}
 	// per-cell: the length rule vs the decoder on arbitrary bytes, metadata domains swept (valid and invalid)
 	type tm struct{ t, md int }
 	var domain []tm
